@@ -4,7 +4,8 @@
 (* run of the real code on one layout (harness/intervals/runner.py):       *)
 (*   op "sj"    split_byte_interval, optional growth of the first interval,*)
 (*              join_byte_intervals under one call variant                 *)
-(*              t = [v, pre, mid, (mid2), post, ret, exc, stage, nopb, encb]*)
+(*              t = [v, pre, mid, (mid2), post, ret, exc, stage, nopb, encb,*)
+(*              grown, late]                                               *)
 (*   op "apply" RewritingContext(module).apply() with no modification      *)
 (*              t = [v, pre, post, prex, postx, exc, stage]                *)
 (* Every step consumes one line and prints its verdict.  The clauses are   *)
@@ -39,14 +40,14 @@ HasIv(st, id) == \E j \in DOMAIN st.ivs : st.ivs[j].id = id
 SjCtx(t) ==
   LET T == Tables(t)
       nop == NopOf(t)
-      mid2 == IF t.grown > 0 THEN t.mid2 ELSE t.mid
+      mid2 == IF t.grown > 0 \/ t.late > 0 THEN t.mid2 ELSE t.mid     \* what the join was given
       dom == WellFormed(t.pre) /\ Len(t.pre.ivs) = 1
       splitDone == dom /\ t.stage \in {"join", "done"}
       done == dom /\ t.stage = "done"
       sd == IF splitDone THEN SplitDiag(t.pre, t.mid, T) ELSE "-"
       legalExc == t.exc \in {"", "PaddingError"}
       pl == IF splitDone /\ legalExc THEN PaddingLegal(mid2, t.post, t.ret, t.exc, nop, T) ELSE TRUE
-      inv == done /\ t.grown = 0 /\ Invertible(t.pre)
+      inv == done /\ t.grown = 0 /\ t.late = 0 /\ Invertible(t.pre)
       id == IF inv THEN InvertDiag(t.pre, t.post) ELSE "-"
       ah == done /\ AlignConsistent(t.pre)
       br == IF ah THEN Broken(t.pre, t.post) ELSE {}
